@@ -278,9 +278,11 @@ def rule_manifest_no_overwrite(ctx, rep):
             for t in tgts:
                 if not isinstance(t, ast.Subscript) or isinstance(t.slice, (ast.Constant, ast.Slice)):
                     continue
-                if isinstance(t.value, ast.Name) and t.value.id in ("lines", "new_lines", "updated_lines", "original_lines"):
-                    continue  # a line buffer indexed by position
-                if isinstance(t.slice, ast.UnaryOp) or (isinstance(t.slice, ast.Name) and t.slice.id in ("i", "idx", "index", "lineno")):
+                # the rule speaks of stores keyed by a requirement's *name* (a value of the run, not of the document): the key expression,
+                # after expanding once-bound locals, reads a `.name` attribute.  Positional stores into line buffers, caches keyed by path, ...
+                # are not its subject.
+                kx = ctx.resolver(fn).expand(t.slice) if isinstance(t.slice, ast.Name) else t.slice
+                if not any(isinstance(x, ast.Attribute) and x.attr == "name" for x in ast.walk(kx)):
                     continue
                 n += 1
                 fa = fa or ctx.flow(fn)
